@@ -97,7 +97,7 @@ func c15MainIn(cwd string, args []string, stdin string) (int, string, string) {
 func TestVerifC15(t *testing.T) {
 	r := vNewReport("C15")
 	defer r.Write(t)
-	r.Extra["rule"] = "3 workflows x 8 -ignore sets x 4 paths globs x 4 config ignore sets x 4 working directories x 5 path spellings (relative, ./relative, absolute; piped through stdin with a relative / absolute -stdin-filename) through Command.Main (-oneline -no-color), complete product; oracle: unfiltered list minus diagnostics matched by a CLI pattern or by a config pattern whose glob matches the root-relative path, order preserved, exit 1 iff non-empty; plus exit-status rows (invalid flag 2; unreadable file, bad config, bad -ignore regexp, bad config regexp 3). class = (remaining diagnostics, exit status); non-trivial = something is filtered"
+	r.Extra["rule"] = "3 workflows x 8 -ignore sets x 4 paths globs x 4 config ignore sets x {no further entry, a further matching entry, a further non-matching entry} x 4 working directories x 5 path spellings (relative, ./relative, absolute; piped through stdin with a relative / absolute -stdin-filename) through Command.Main (-oneline -no-color), complete product; oracle: unfiltered list minus diagnostics matched by a CLI pattern or by a config pattern whose glob matches the root-relative path, order preserved, exit 1 iff non-empty; plus exit-status rows (invalid flag 2; unreadable file, bad config, bad -ignore regexp, bad config regexp 3). class = (remaining diagnostics, exit status); non-trivial = something is filtered"
 	r.Extra["assumptions"] = []string{"glob match bits are part of the scenario table (written by hand for 4 globs x 3 files)", "working directory is process-global: cases run sequentially inside each worker process"}
 	orig, _ := os.Getwd()
 	defer os.Chdir(orig)
@@ -112,15 +112,26 @@ func TestVerifC15(t *testing.T) {
 	cwds := map[string]string{"root": root, "parent": filepath.Join(base, "parent"), "nested": filepath.Join(root, ".github", "workflows"), "unrelated": filepath.Join(base, "other")}
 	common := []string{"-oneline", "-no-color", "-shellcheck=", "-pyflakes="}
 
-	writeCfg := func(g *c15Glob, pats []string) {
-		if g == nil || len(pats) == 0 {
+	// second: 0 = no further entry; 1 = a further entry whose glob matches every workflow and ignores
+	// the runner-label message; 2 = a further entry whose glob matches nothing and ignores everything
+	writeCfg := func(g *c15Glob, pats []string, second int) {
+		if (g == nil || len(pats) == 0) && second == 0 {
 			os.Remove(cfgPath)
 			return
 		}
 		var b strings.Builder
-		b.WriteString("paths:\n  '" + g.glob + "':\n    ignore:\n")
-		for _, p := range pats {
-			b.WriteString("      - '" + strings.ReplaceAll(p, "'", "''") + "'\n")
+		b.WriteString("paths:\n")
+		if second == 2 {
+			b.WriteString("  'nomatch2/**/*.yml':\n    ignore:\n      - '.*'\n")
+		}
+		if g != nil && len(pats) > 0 {
+			b.WriteString("  '" + g.glob + "':\n    ignore:\n")
+			for _, p := range pats {
+				b.WriteString("      - '" + strings.ReplaceAll(p, "'", "''") + "'\n")
+			}
+		}
+		if second == 1 {
+			b.WriteString("  '**/*.yml':\n    ignore:\n      - 'label \"nosuchlabel\"'\n")
 		}
 		if err := os.WriteFile(cfgPath, []byte(b.String()), 0o644); err != nil {
 			t.Fatal(err)
@@ -158,7 +169,7 @@ func TestVerifC15(t *testing.T) {
 	}
 
 	// unfiltered reference lists
-	writeCfg(nil, nil)
+	writeCfg(nil, nil, 0)
 	unfiltered := map[string][]c15Diag{}
 	for n := range c15Workflows {
 		code, out, errOut := c15Main(root, append(append([]string{}, common...), filepath.Join(root, ".github/workflows", n)))
@@ -179,98 +190,103 @@ func TestVerifC15(t *testing.T) {
 				for pi, cfgPats := range c15CfgSets {
 					for _, cwdName := range []string{"root", "parent", "nested", "unrelated"} {
 						for _, spelling := range []string{"relative", "dot-relative", "absolute", "stdin-relative", "stdin-absolute"} {
-							idx++
-							if !r.Mine(idx) {
-								continue
-							}
-							if idx%256 == 0 && r.Expired() {
-								return
-							}
-							abs := filepath.Join(root, ".github/workflows", wf)
-							arg := abs
-							// stdin-*: the workflow is piped in and the path is given with -stdin-filename
-							viaStdin := strings.HasPrefix(spelling, "stdin-")
-							if spelling != "absolute" && spelling != "stdin-absolute" {
-								rel, err := filepath.Rel(cwds[cwdName], abs)
-								if err != nil {
+							for second := 0; second < 3; second++ {
+								idx++
+								if !r.Mine(idx) {
 									continue
 								}
-								arg = rel
-								if spelling == "dot-relative" {
-									arg = "./" + rel
+								if idx%256 == 0 && r.Expired() {
+									return
 								}
-							}
-							writeCfg(g, cfgPats)
-							args := append([]string{}, common...)
-							for _, p := range cli {
-								args = append(args, "-ignore", p)
-							}
-							stdin := ""
-							if viaStdin {
-								args = append(args, "-stdin-filename", arg, "-")
-								stdin = c15Workflows[wf]
-							} else {
-								args = append(args, arg)
-							}
-							r.Begin(func() string { return fmt.Sprintf("cwd=%s args=%v glob=%s cfg=%v", cwdName, args, g.glob, cfgPats) })
-							code, out, errOut := c15MainIn(cwds[cwdName], args, stdin)
-							r.Evaluations++
-							r.Transitions++
-							r.Validated++
-							// reference filter
-							var want []string
-							for _, d := range unfiltered[wf] {
-								drop := false
-								for _, p := range cli {
-									if regexp.MustCompile(p).MatchString(d.msg) {
-										drop = true
+								abs := filepath.Join(root, ".github/workflows", wf)
+								arg := abs
+								// stdin-*: the workflow is piped in and the path is given with -stdin-filename
+								viaStdin := strings.HasPrefix(spelling, "stdin-")
+								if spelling != "absolute" && spelling != "stdin-absolute" {
+									rel, err := filepath.Rel(cwds[cwdName], abs)
+									if err != nil {
+										continue
+									}
+									arg = rel
+									if spelling == "dot-relative" {
+										arg = "./" + rel
 									}
 								}
-								if g.matches[wf] {
-									for _, p := range cfgPats {
+								writeCfg(g, cfgPats, second)
+								args := append([]string{}, common...)
+								for _, p := range cli {
+									args = append(args, "-ignore", p)
+								}
+								stdin := ""
+								if viaStdin {
+									args = append(args, "-stdin-filename", arg, "-")
+									stdin = c15Workflows[wf]
+								} else {
+									args = append(args, arg)
+								}
+								r.Begin(func() string { return fmt.Sprintf("cwd=%s args=%v glob=%s cfg=%v", cwdName, args, g.glob, cfgPats) })
+								code, out, errOut := c15MainIn(cwds[cwdName], args, stdin)
+								r.Evaluations++
+								r.Transitions++
+								r.Validated++
+								// reference filter
+								var want []string
+								for _, d := range unfiltered[wf] {
+									drop := false
+									for _, p := range cli {
 										if regexp.MustCompile(p).MatchString(d.msg) {
 											drop = true
 										}
 									}
+									if g.matches[wf] {
+										for _, p := range cfgPats {
+											if regexp.MustCompile(p).MatchString(d.msg) {
+												drop = true
+											}
+										}
+									}
+									if second == 1 && strings.Contains(d.msg, `label "nosuchlabel"`) {
+										drop = true
+									}
+									if !drop {
+										want = append(want, fmt.Sprintf("%d:%d:%s", d.line, d.col, d.msg))
+									}
 								}
-								if !drop {
-									want = append(want, fmt.Sprintf("%d:%d:%s", d.line, d.col, d.msg))
+								wantExit := 0
+								if len(want) > 0 {
+									wantExit = 1
 								}
-							}
-							wantExit := 0
-							if len(want) > 0 {
-								wantExit = 1
-							}
-							ds, _ := c15Parse(out)
-							var got []string
-							for _, d := range ds {
-								got = append(got, fmt.Sprintf("%d:%d:%s", d.line, d.col, d.msg))
-							}
-							cfgText := ""
-							if b, err := os.ReadFile(cfgPath); err == nil {
-								cfgText = string(b)
-							}
-							replay := map[string]any{"cwd": cwdName, "args": args, "config": cfgText, "want": want, "want_exit": wantExit, "stdin": stdin}
-							desc := fmt.Sprintf("%s cwd=%s spelling=%s -ignore=%v paths[%s].ignore=%v", wf, cwdName, spelling, cli, g.glob, cfgPats)
-							if strings.Join(got, "\n") != strings.Join(want, "\n") {
-								kind := "filter-mismatch"
-								if len(got) > len(want) {
-									kind = "not-filtered"
-								} else if len(got) < len(want) {
-									kind = "over-filtered"
+								ds, _ := c15Parse(out)
+								var got []string
+								for _, d := range ds {
+									got = append(got, fmt.Sprintf("%d:%d:%s", d.line, d.col, d.msg))
 								}
-								feature := "cli"
-								if len(cfgPats) > 0 {
-									feature = fmt.Sprintf("config:cwd=%s:glob-matches=%v", cwdName, g.matches[wf])
+								cfgText := ""
+								if b, err := os.ReadFile(cfgPath); err == nil {
+									cfgText = string(b)
 								}
-								r.Violation(kind+":"+feature, fmt.Sprintf("%s: output has %d diagnostics, the reference filter leaves %d\n got: %v\nwant: %v\nstderr: %s", desc, len(got), len(want), got, want, vTrunc(errOut, 200)), replay)
-							} else if code != wantExit {
-								r.Violation("exit-status", fmt.Sprintf("%s: exit status %d, expected %d (%d diagnostics remain); stderr %s", desc, code, wantExit, len(want), vTrunc(errOut, 200)), replay)
-							}
-							r.Class(fmt.Sprintf("remaining=%d/%d exit=%d", len(want), len(unfiltered[wf]), wantExit), len(want) < len(unfiltered[wf]))
-							_, _ = ci, pi
-							if idx%577 == 0 {
-								r.Sample(map[string]any{"case": desc, "remaining": len(want), "exit": wantExit})
+								replay := map[string]any{"cwd": cwdName, "args": args, "config": cfgText, "want": want, "want_exit": wantExit, "stdin": stdin}
+								desc := fmt.Sprintf("%s cwd=%s spelling=%s -ignore=%v paths[%s].ignore=%v second-entry=%d", wf, cwdName, spelling, cli, g.glob, cfgPats, second)
+								if strings.Join(got, "\n") != strings.Join(want, "\n") {
+									kind := "filter-mismatch"
+									if len(got) > len(want) {
+										kind = "not-filtered"
+									} else if len(got) < len(want) {
+										kind = "over-filtered"
+									}
+									feature := "cli"
+									if len(cfgPats) > 0 {
+										feature = fmt.Sprintf("config:cwd=%s:glob-matches=%v", cwdName, g.matches[wf])
+									}
+									r.Violation(kind+":"+feature, fmt.Sprintf("%s: output has %d diagnostics, the reference filter leaves %d\n got: %v\nwant: %v\nstderr: %s", desc, len(got), len(want), got, want, vTrunc(errOut, 200)), replay)
+								} else if code != wantExit {
+									r.Violation("exit-status", fmt.Sprintf("%s: exit status %d, expected %d (%d diagnostics remain); stderr %s", desc, code, wantExit, len(want), vTrunc(errOut, 200)), replay)
+								}
+								r.Class(fmt.Sprintf("remaining=%d/%d exit=%d", len(want), len(unfiltered[wf]), wantExit), len(want) < len(unfiltered[wf]))
+								_, _ = ci, pi
+								if idx%577 == 0 {
+									r.Sample(map[string]any{"case": desc, "remaining": len(want), "exit": wantExit})
+								}
 							}
 						}
 					}
@@ -281,7 +297,7 @@ func TestVerifC15(t *testing.T) {
 
 	// exit-status rows
 	if r.Shard == 0 {
-		writeCfg(nil, nil)
+		writeCfg(nil, nil, 0)
 		w2 := filepath.Join(root, ".github/workflows/w2.yml")
 		rows := []struct {
 			name string
@@ -302,7 +318,7 @@ func TestVerifC15(t *testing.T) {
 			{"problems", nil, []string{w2}, 1},
 		}
 		for _, row := range rows {
-			writeCfg(nil, nil)
+			writeCfg(nil, nil, 0)
 			if row.pre != nil {
 				row.pre()
 			}
@@ -315,6 +331,6 @@ func TestVerifC15(t *testing.T) {
 			}
 			r.Class("exit-row "+row.name, true)
 		}
-		writeCfg(nil, nil)
+		writeCfg(nil, nil, 0)
 	}
 }
